@@ -151,7 +151,8 @@ Inductive op :=
 | Restart
 | Import (m : N)
 | New (k flag : N) (args : list arg)
-| Act (j a : N) (x : arg).
+| Act (j a : N) (x : arg)
+| Again (j : N).          (* build once more from the SAME configuration object that artifact j was built from *)
 
 Definition garg (a : list arg) (n : nat) : arg := nth n a AAbsent.
 
@@ -159,7 +160,7 @@ Definition garg (a : list arg) (n : nat) : arg := nth n a AAbsent.
 Definition F_DEK := 1.  Definition F_MAC := 2.  Definition F_NONCE := 3. Definition F_PAD := 4.
 Definition F_HPAD := 5. Definition F_FILL := 6. Definition F_IV := 7.    Definition F_KEY := 8.
 Definition F_CTR := 9.  Definition F_KEY1 := 10. Definition F_KEY2 := 11. Definition F_BCTR := 12.
-Definition F_KKEY := 13. Definition F_KIV := 14. Definition F_SW := 15.
+Definition F_KKEY := 13. Definition F_KIV := 14. Definition F_SW := 15.  Definition F_KEK := 16.
 
 Definition sb_items (edges : list N) (a : list arg) (keep_pad : bool) : list item :=
   [ Item F_DEK 1 edges GFalsy (garg a 0) 32 true
@@ -205,14 +206,31 @@ Definition plan_new (t : table) (k flag : N) (a : list arg) : option (N * list i
           Some (6, (if (sel =? 0) || (sel =? 2) then bee_engine_items 0 nokey else [])
                    ++ (if (sel =? 1) || (sel =? 2) then bee_engine_items 1 nokey else []), 0)
   | 11 => let len := 16 + 8 * (flag mod 4) in
-          Some (7, [ Item F_DEK 19 [] GNone (if 4 <=? flag then AGiven 1 else AAbsent) len true ], 0)
+          (* bit 2: SecretKey_ReuseDek; flag >= 8: a key file of an earlier build already exists at the path --
+             irrelevant for the code, the key is drawn unless ReuseDek is set *)
+          Some (7, [ Item F_DEK 19 [] GNone (if N.odd (flag / 4) then AGiven 1 else AAbsent) len true ], 0)
   | 12 => let d := if bit0 flag then AGiven 1 else AAbsent in
           let n := if bit1 flag then AGiven 2 else AAbsent in
           Some (11, [ Item F_DEK 19 [] GNone d 32 false; Item F_DEK 19 [] GNone d 32 true
                     ; Item F_NONCE 20 [] GNone n 13 true ], 0)
   | 13 => Some (7, [ Item F_NONCE 20 [] GNone AAbsent (13 - flag) true ], 0)
+  | 14 => (* IeeNxp.load_from_config: key1/key2 through load_hex_string (random when the config value is empty) *)
+          let l1 := if flag =? 0 then 16 else 32 in
+          let l2 := if flag =? 1 then 32 else 16 in
+          Some (5, [ Item F_KEY1 22 [] GFalsy (garg a 0) l1 true; Item F_KEY2 22 [] GFalsy (garg a 1) l2 true ], 0)
+  | 15 => (* OtfadNxp.load_from_config: kek through load_hex_string; blob key and counter are mandatory config values *)
+          Some (4, [ Item F_KEK 22 [] GFalsy (garg a 0) 16 true
+                   ; Item F_KEY 10 [] GNone (garg a 1) 16 true; Item F_CTR 11 [] GNone (garg a 2) 8 true ], 0)
+  | 16 => (* BootImageV21.get_advanced_params(options) *)
+          Some (2, sb_items [] a true, 0)
   | _ => None
   end.
+
+(* artifacts built from a configuration object (dict) that the caller can pass again.  Configuration objects are
+   immutable inputs: a builder reads its secrets from them and never writes a draw back, so building again from the
+   same object is the same plan with the same arguments. *)
+Definition config_driven (k flag : N) : bool :=
+  (k =? 3) || ((k =? 4) && (flag mod 4 =? 2)) || (k =? 10) || (k =? 11) || (k =? 12) || (k =? 14) || (k =? 15) || (k =? 16).
 
 Definition has_field (sl : list wslot) (j f : N) : bool :=
   existsb (fun e => (fst (fst e) =? j) && (snd (fst e) =? f)) sl.
@@ -268,6 +286,18 @@ Definition step (t : table) (c : closure) (w : world) (o : op) : world * opres :
                end
            | None => (w, (9, [], [], w_imp w))
            end
+  | Again j =>
+      if j <? w_base w then (w, (9, [], [], w_imp w))
+      else match nth_error (w_objs w) (N.to_nat j) with
+           | Some o =>
+               if config_driven (o_kind o) (o_flag o) then
+                 match plan_new t (o_kind o) (o_flag o) (o_args o) with
+                 | Some p => run_plan t c w p (nlen (w_objs w)) [o]
+                 | None => (w, (9, [], [], w_imp w))
+                 end
+               else (w, (9, [], [], w_imp w))
+           | None => (w, (9, [], [], w_imp w))
+           end
   end.
 
 Definition init_world : world := W (RS 1 []) [] [] 0 [].
@@ -305,6 +335,7 @@ Definition op_of (v : value) : option op :=
   | VList [VInt 1%Z; VInt m] => Some (Import (zN m))
   | VList [VInt 2%Z; VInt k; VInt flag; VList a] => Some (New (zN k) (zN flag) (map arg_of a))
   | VList [VInt 3%Z; VInt j; VInt a; x] => Some (Act (zN j) (zN a) (arg_of x))
+  | VList [VInt 4%Z; VInt j] => Some (Again (zN j))
   | _ => None
   end.
 Fixpoint ops_of (l : list value) : option (list op) :=
@@ -326,8 +357,8 @@ Definition v_res (r : opres) : value :=
         ; VList (map (fun e => VList [vN (fst (fst e)); vN (snd (fst e)); v_origin (snd e)]) sl)
         ; VList (map vN imp) ].
 
-(* fn 1: trace of a history under an explicit table/closure is not needed by the harness; the harness always runs the
-   generated table: run_case_with is applied to Gen/GenFresh by FreshCases (see tools/props/c17.py). *)
+(* fn 1: step-by-step trace of a history (what tools/props/c17.py compares with the implementation);
+   fn 2: summary of the table.  run_case instantiates the table generated from the current source. *)
 Definition run_case_with (t : table) (c : closure) (fn : Z) (args : list value) : value :=
   match fn, args with
   | 1%Z, [VList h] =>
